@@ -42,10 +42,19 @@ PROGRAMS = {
     "out-force-false": ("w = a * 1.0\nmg.multiply(b, c, out=w, constant=False)\nr = w + a", {"w": lambda ca, cb, cc: ca, "r": lambda ca, cb, cc: ca}),
     "out-where-force-true": ("w = a * 1.0\nmg.add(b, c, out=w, where=M, constant=True)\nr = w * w", {"w": lambda ca, cb, cc: ca, "r": lambda ca, cb, cc: ca}),
     "out-where-force-false": ("w = a * 1.0\nmg.add(b, c, out=w, where=M, constant=False)\nr = w * w", {"w": lambda ca, cb, cc: ca, "r": lambda ca, cb, cc: ca}),
+    # views whose flag is forced against that of their base
+    "forced-const-view": ("v = mg.reshape(a, (2,), constant=True)\nr = a * b + c", {"v": lambda ca, cb, cc: True, "r": lambda ca, cb, cc: ca and cb and cc}),
+    "forced-var-view": ("v = mg.reshape(a, (2,), constant=False)\nr = v * b + c", {"v": lambda ca, cb, cc: False, "r": lambda ca, cb, cc: False}),
+    "forced-var-view-transpose": ("v = mg.transpose(a, constant=False)\nr = (v * v).sum() + b.sum() * c", {"v": lambda ca, cb, cc: False, "r": lambda ca, cb, cc: False}),
+    "clip-none-none-forced": ("m = mg.clip(a, None, None, constant=True)\nr = m * b + c", {"m": lambda ca, cb, cc: True, "r": lambda ca, cb, cc: cb and cc}),
+    "clip-none-none": ("m = mg.clip(a, None, None)\nr = m * b + c", {"m": lambda ca, cb, cc: ca, "r": lambda ca, cb, cc: ca and cb and cc}),
 }
+# non-constant intermediates through which r is computed: they must hold a gradient after r.backward()
+ON_PATH = {"forced-var-view": ["v"], "forced-var-view-transpose": ["v"]}
 # leaves whose gradient is blocked because the only path to r runs through a tensor that is constant (forced, or an
 # in-place target that keeps its constant flag): constants transmit nothing
 BLOCKED = {
+    "clip-none-none-forced": lambda ca, cb, cc: {"a"},
     "force-true": lambda ca, cb, cc: {"a", "b"},
     "method-force": lambda ca, cb, cc: {"a", "b"},
     "iadd": lambda ca, cb, cc: {"b"} if ca else set(),
@@ -261,6 +270,7 @@ def run_prog(spec, tier, mg):
         r.backward()
         grads = {n: t.grad for n, t in T.items()}
         inter_grads = {n: env[n].grad for n in expected if n != "r"}
+        copy_grads = {n: t.copy(constant=True).grad is not None for n, t in T.items() if t.grad is not None}
         # twin: every constant tensor replaced by a plain ndarray
         twin = None
         try:
@@ -276,7 +286,7 @@ def run_prog(spec, tier, mg):
             twin["__r__"] = terms_of(r2.data if isinstance(r2, mg.Tensor) else r2)
         except Exception as e:  # the twin is not expressible with bare arrays for this flag assignment
             twin = ("n/a", "%s: %s" % (type(e).__name__, e))
-        return A, flags, named, rt, grads, inter_grads, twin
+        return A, flags, named, rt, grads, inter_grads, twin, copy_grads
 
     for p in engine.explore(body, max_paths=64, max_seconds=120):
         res["paths"] += 1
@@ -284,7 +294,7 @@ def run_prog(spec, tier, mg):
             res["status"] = common.INCONCLUSIVE
             res["notes"].append("%s: %s" % (type(p.exc).__name__, str(p.exc)[:300]))
             continue
-        A, flags, named, rt, grads, inter_grads, twin = p.out
+        A, flags, named, rt, grads, inter_grads, twin, copy_grads = p.out
         ca, cb, cc = flags["a"], flags["b"], flags["c"]
         tag = "flags a=%s b=%s c=%s" % (ca, cb, cc)
         for n, f in expected.items():
@@ -296,6 +306,12 @@ def run_prog(spec, tier, mg):
         for n, g in inter_grads.items():
             if named[n] and g is not None:
                 findings.append("%s: constant tensor %s acquired a gradient" % (tag, n))
+        for n in ON_PATH.get(spec["prog"], []):
+            if not named[n] and inter_grads.get(n) is None:
+                findings.append("%s: non-constant tensor %s lies on the path to r but has no gradient" % (tag, n))
+        for n, cg in copy_grads.items():
+            if cg:
+                findings.append("%s: %s.copy(constant=True) carries a gradient" % (tag, n))
         # reference derivative treating constants as constants
         L = diff.weighted_sum(rt, [tm.const(1)] * len(rt))
         blocked = BLOCKED.get(spec["prog"], lambda *a: set())(ca, cb, cc)
@@ -341,6 +357,22 @@ def run_prog(spec, tier, mg):
                     res["status"] = common.INCONCLUSIVE
         else:
             res["twin_not_expressible"] = res.get("twin_not_expressible", 0) + 1
+    copy_findings = [f for f in findings if "copy(constant=True) carries a gradient" in f]
+    findings = [f for f in findings if f not in copy_findings]
+    if copy_findings:
+        sig = "copy-constant-true-carries-grad"
+        known = common.match_known(common.load_known(PROP), sig)
+        src = ("import sys\nimport numpy as np\nimport mygrad as mg\nx = mg.Tensor([1.0, 2.0])\n(x * 3.0).sum().backward()\nc = x.copy(constant=True)\n"
+               "print(c.constant, c.grad)\nbad = c.constant and c.grad is not None\nprint('REPRODUCED' if bad else 'NOT-REPRODUCED'); sys.exit(1 if bad else 0)\n")
+        path = common.write_replay(PROP, "copy_constant_true", src)
+        ok, out = common.run_replay(path, count=known is None)
+        if ok:
+            if known is None:
+                res["status"] = common.VIOLATION
+            res["violations"].append({"signature": sig, "replay": path, "summary": "program `%s`: %s" % (body_src.replace("\n", "; "), copy_findings[0])})
+        else:
+            res["status"] = common.INCONCLUSIVE
+            res["notes"].append("did not reproduce: %s" % copy_findings[:1])
     if findings:
         rp = _replay(spec, body_src)
         if rp:
@@ -365,11 +397,15 @@ def _replay(spec, body_src):
         "inplace-where": "{'w': ca, 'r': ca}",
         "out-force-true": "{'w': ca, 'r': ca}", "out-force-false": "{'w': ca, 'r': ca}", "out-where-force-true": "{'w': ca, 'r': ca}",
         "out-where-force-false": "{'w': ca, 'r': ca}",
+        "forced-const-view": "{'v': True, 'r': ca and cb and cc}", "forced-var-view": "{'v': False, 'r': False}",
+        "forced-var-view-transpose": "{'v': False, 'r': False}", "clip-none-none-forced": "{'m': True, 'r': cb and cc}",
+        "clip-none-none": "{'m': ca, 'r': ca and cb and cc}",
     }[spec["prog"]]
     src = '''import sys, itertools
 import numpy as np
 import mygrad as mg
 BODY = %r
+ON_PATH = %r
 M = np.array([True, False])
 A = {"a": np.array([1.5, -0.5]), "b": np.array([0.75, 2.0]), "c": np.array(1.25)}
 bad = []
@@ -385,6 +421,9 @@ for ca, cb, cc in itertools.product([False, True], repeat=3):
         r.backward()
         for n in A:
             if fl[n] and T[n].grad is not None: bad.append((fl, n, "constant leaf has grad"))
+        for n in exp:
+            if n != "r" and env[n].constant and env[n].grad is not None: bad.append((fl, n, "constant tensor has grad"))
+            if n in ON_PATH and not env[n].constant and env[n].grad is None: bad.append((fl, n, "non-constant tensor on the path has no grad"))
         T2 = {n: (A[n].copy() if fl[n] else mg.Tensor(A[n])) for n in A}
         env2 = {"mg": mg, "np": np, "M": M}; env2.update(T2)
         try:
@@ -401,7 +440,7 @@ for ca, cb, cc in itertools.product([False, True], repeat=3):
         bad.append((fl, "raised", type(e).__name__, str(e)[:200]))
 print(bad)
 print('REPRODUCED' if bad else 'NOT-REPRODUCED'); sys.exit(1 if bad else 0)
-''' % (body_src, exp_src)
+''' % (body_src, ON_PATH.get(spec["prog"], []), exp_src)
     path = common.write_replay(PROP, gradcase._safe(spec["name"]), src)
     ok, out = common.run_replay(path)
     return path if ok else None
